@@ -43,9 +43,9 @@ PROPS = {
         assumptions=["operations on one peer's tracker are serialised by its mutex (each op is one atomic step)"],
     ),
     'C18': dict(
-        drivers=[dict(driver='publisher', monitors=['MON18']), dict(driver='pubburst', monitors=['MON18B'])],
-        proof_files=['PublisherProofs.v'], coq_targets=['theories/PublisherBurst.vo'],
-        level_text="Refinement theorem C18_holds: for every call sequence the publisher model (two inverse indexes, snapshot range loops, closed flag) delivers, call by call, exactly what the active-subscriptions specification allows (each publish once to exactly the active subscribers, exactly one close per ended subscription, nothing after shutdown); C18_registry_consistent: both indexes describe one duplicate-free set in every reachable state. The model is run against the real notifications publisher on generated call sequences each run (a marker publish waits for the command queue to drain) and the same monitor is evaluated on the implementation's deliveries; a second driver issues bursts of 20-270 calls while the publisher's goroutine is held inside a blocked subscriber callback (so its command queue really fills) and compares every subscriber's complete log with the log the model prescribes.",
+        drivers=[dict(driver='publisher', monitors=['MON18', 'HIST18']), dict(driver='pubburst', monitors=['MON18B'])],
+        proof_files=['PublisherProofs.v', 'PublisherHistory.v'], coq_targets=['theories/PublisherBurst.vo', 'theories/PublisherTrace.vo'],
+        level_text="Refinement theorem C18_holds: for every call sequence the publisher model (two inverse indexes, snapshot range loops, closed flag) delivers, call by call, exactly what the active-subscriptions specification allows (each publish once to exactly the active subscribers, exactly one close per ended subscription, nothing after shutdown); C18_registry_consistent: both indexes describe one duplicate-free set in every reachable state. C18_history (corollary, the property in its own words): for every subscriber s, topic t and call sequence, what s is handed for t call by call equals the trace of a two-bit automaton computed from the calls alone (the event of each publish on t while (t,s) is active, one close at the call that ends the subscription, nothing otherwise, nothing after shutdown); C18_history_univ states it for any observed universe, and that executable check (HIST18) is evaluated on the Go publisher's deliveries too. The model is run against the real notifications publisher on generated call sequences each run (a marker publish waits for the command queue to drain) and the same monitor is evaluated on the implementation's deliveries; a second driver issues bursts of 20-270 calls while the publisher's goroutine is held inside a blocked subscriber callback (so its command queue really fills) and compares every subscriber's complete log with the log the model prescribes.",
         level_note="Kernel-checked over the Gallina model; calls are issued sequentially so the FIFO command queue makes processing order = call order (concurrent callers are not modelled here; C16 covers the message-queue use). Order of several closes to one subscriber within one call is unconstrained.",
         trusted=["harness synchronisation: a marker event on a private topic is used to wait for the publisher goroutine after each call; after shutdown a bounded wait (400ms) is used"],
         assumptions=["API calls are issued one after another (the publisher's own goroutine is the only concurrency)"],
